@@ -990,6 +990,113 @@ def f(xs: list[fp.Real], x: fp.Real) -> fp.Real:
     return acc
 ''', 'f', [('list', [0, 1, 2]), 'real'], ['semantics', 'enumerate', 'loop'])
 
+# ---- analysis facts (C13 / C14 part 2) ----------------------------------------------------------------------------
+prog('vc_underflow_product', '''
+@fp.fpy
+def f(x: fp.Real, y: fp.Real) -> fp.Real:
+    with C3:
+        if x == 0:
+            return x
+        elif y == 0:
+            return y
+        else:
+            z = x * y
+            w = z * z
+            v = w * z
+            return v
+''', 'f', ['real', 'real'], ['analysis', 'class', 'context'])
+
+prog('vc_ladder', '''
+@fp.fpy
+def f(x: fp.Real, y: fp.Real) -> fp.Real:
+    if fp.isnan(x):
+        r = y
+    elif fp.isinf(x):
+        r = y + 1
+    elif x == 0:
+        r = x + y
+    else:
+        r = x * y
+    if r != 0:
+        r = r - r
+    return r
+''', 'f', ['real', 'real'], ['analysis', 'class', 'branch'])
+
+prog('vc_cancellation_and_loop', '''
+@fp.fpy
+def f(x: fp.Real, xs: list[fp.Real]) -> fp.Real:
+    z = 1.0
+    if x != 0:
+        for v in xs:
+            if v != 0:
+                z = z * v
+            else:
+                z = z - x
+        z = z - x
+    return z
+''', 'f', ['real', ('list', [0, 1, 2])], ['analysis', 'class', 'loop'])
+
+prog('size_slices_and_comprehensions', '''
+@fp.fpy
+def f(xs: list[fp.Real], n: int) -> fp.Real:
+    ys = xs[1:3]
+    zs = [v + 1 for v in xs]
+    ws = [a * b for a, b in zip(xs, zs)]
+    ks = [i for i in range(n)]
+    ps = [[u, u] for u in ys]
+    return sum(ws) + len(ks) + len(ps) + ps[0][1]
+''', 'f', [('list', [3, 4]), ('int', [0, 2])], ['analysis', 'size', 'comprehension'])
+
+prog('size_branch_join', '''
+@fp.fpy
+def f(xs: list[fp.Real], c: fp.Real) -> fp.Real:
+    if c > 0:
+        ys = [c, c]
+    else:
+        ys = [c, c, c]
+    zs = [v for v in ys]
+    ts = xs if c > 1 else zs
+    return sum(ts) + len(zs)
+''', 'f', [('list', [0, 2]), 'real'], ['analysis', 'size', 'branch'])
+
+prog('alias_routes', '''
+@fp.fpy
+def f(x: fp.Real, y: fp.Real, c: fp.Real) -> fp.Real:
+    a = [x, y]
+    b = [y, x]
+    d = a if c > 0 else b
+    t = (d, x)
+    e, _ = t
+    rows = [a, b]
+    r = rows[0]
+    g = a[0:2]
+    e[0] = e[0] + 1
+    r[1] = r[1] + 1
+    g[0] = g[0] + 5
+    h = b
+    for q in rows:
+        h = q
+    return a[0] + a[1] + b[0] + b[1] + h[0] + g[0]
+''', 'f', ['real', 'real', 'real'], ['analysis', 'alias', 'list'])
+
+prog('const_under_branches_and_loops', '''
+@fp.fpy
+def f(x: fp.Real, n: int) -> fp.Real:
+    k = 2
+    j = k + 1
+    with C3:
+        m = j * 0.4375
+    if x > 0:
+        k = 3
+    t = k + j
+    for i in range(n):
+        j = j + 0
+        t = t + m
+    u = -0.0
+    w = u * k
+    return t + j + w + x
+''', 'f', ['real', ('int', [0, 1, 2])], ['analysis', 'constfold', 'simplify'])
+
 def namespace():
     """contexts the corpus programs refer to by name"""
     import fpy2 as fp
